@@ -28,3 +28,7 @@ func verifIteInt(c bool, a, b int) int {
 	return b
 }
 func verifCanBe(b bool, label string) {}
+func verifAtomCount() int                      { return 0 }
+func verifAtomIs(i int, name string) bool      { return false }
+func verifAtomNArgs(i int) int                 { return 0 }
+func verifAtomArg(i, k int, v any) bool        { return false }
